@@ -213,8 +213,9 @@ void FlexPath::transform(double magnification, bool x_reflection, double rotatio
         p->x = q.x * ca - q.y * sa + origin.x;
         p->y = q.x * sa + q.y * ca + origin.y;
     }
-    Vec2 wo_scale = {1, magnification};
-    if (scale_width) wo_scale.x = magnification;
+    Vec2 wo_scale = {1, fabs(magnification)};
+    if (scale_width) wo_scale.u = wo_scale.v;
+    if (x_reflection) wo_scale.v = -wo_scale.v;
     FlexPathElement* el = elements;
     for (uint64_t ne = 0; ne < num_elements; ne++, el++) {
         el->end_extensions *= magnification;
